@@ -264,27 +264,7 @@ func RatText(r *big.Rat) string {
 		return r.Num().String()
 	}
 	// terminating iff denominator = 2^a 5^b
-	d := new(big.Int).Set(r.Denom())
-	a, b := 0, 0
-	two, five := big.NewInt(2), big.NewInt(5)
-	m := new(big.Int)
-	for {
-		q, rem := new(big.Int).QuoRem(d, two, m)
-		if rem.Sign() != 0 {
-			break
-		}
-		d = q
-		a++
-	}
-	for {
-		q, rem := new(big.Int).QuoRem(d, five, m)
-		if rem.Sign() != 0 {
-			break
-		}
-		d = q
-		b++
-	}
-	if d.Cmp(big.NewInt(1)) == 0 {
+	if a, b, ok := pow2pow5(r.Denom()); ok {
 		n := a
 		if b > n {
 			n = b
@@ -292,6 +272,31 @@ func RatText(r *big.Rat) string {
 		return r.FloatString(n)
 	}
 	return r.FloatString(40)
+}
+
+// pow2pow5 writes d as 2^a 5^b if it has that form. It avoids dividing
+// repeatedly (quadratic for denominators like 10^100000): the power of two
+// is the number of trailing zero bits, the power of five is estimated from
+// the bit length and confirmed by one exponentiation.
+func pow2pow5(d *big.Int) (a, b int, ok bool) {
+	if d.Sign() <= 0 {
+		return 0, 0, false
+	}
+	a = int(d.TrailingZeroBits())
+	m := new(big.Int).Rsh(d, uint(a))
+	if m.IsInt64() && m.Int64() == 1 {
+		return a, 0, true
+	}
+	est := int(float64(m.BitLen()-1)/2.321928094887362 + 0.5)
+	for _, c := range []int{est, est - 1, est + 1} {
+		if c < 1 {
+			continue
+		}
+		if new(big.Int).Exp(big.NewInt(5), big.NewInt(int64(c)), nil).Cmp(m) == 0 {
+			return a, c, true
+		}
+	}
+	return 0, 0, false
 }
 
 // SigDigits returns the number of significant decimal digits of a terminating
@@ -303,18 +308,7 @@ func SigDigits(r *big.Rat) (digits int, ok bool) {
 	}
 	t := RatText(r)
 	if !r.IsInt() {
-		d := new(big.Int).Set(r.Denom())
-		for _, p := range []int64{2, 5} {
-			pp := big.NewInt(p)
-			for {
-				q, rem := new(big.Int).QuoRem(d, pp, new(big.Int))
-				if rem.Sign() != 0 {
-					break
-				}
-				d = q
-			}
-		}
-		if d.Cmp(big.NewInt(1)) != 0 {
+		if _, _, ok := pow2pow5(r.Denom()); !ok {
 			return 0, false
 		}
 	}
